@@ -224,6 +224,12 @@ func init() {
 		"vsRunUntilBlocked": func(ex *Exec, st *State, fn *ssa.Function, args []Value, site ssa.Instruction) Value {
 			return ex.runUntilBlocked(st, args[0], site)
 		},
+		// vsSetLockHook(f func(lock string)): f runs before every Lock/RLock acquisition (a scheduling point at which the
+		// harness may let another thread's requests run); not re-entered from inside itself
+		"vsSetLockHook": func(ex *Exec, st *State, fn *ssa.Function, args []Value, site ssa.Instruction) Value {
+			ex.lockHook = args[0]
+			return nil
+		},
 		"vsPanicsOff": func(ex *Exec, st *State, fn *ssa.Function, args []Value, site ssa.Instruction) Value {
 			return nil
 		},
@@ -267,7 +273,13 @@ func init() {
 	intrinsics["(*sync.WaitGroup).Add"] = nop
 	intrinsics["(*sync.WaitGroup).Done"] = nop
 	intrinsics["(*sync.WaitGroup).Wait"] = func(ex *Exec, st *State, fn *ssa.Function, args []Value, site ssa.Instruction) Value {
-		ex.waits = append(ex.waits, Event{Kind: "WaitGroup.Wait", PC: st.pcTerm(), Pos: ex.pos(site), Case: ex.curCase, Msg: ex.heldLocks(st)})
+		held := ex.heldLocks(st)
+		ex.waits = append(ex.waits, Event{Kind: "WaitGroup.Wait", PC: st.pcTerm(), Pos: ex.pos(site), Case: ex.curCase, Msg: held})
+		if held != "" {
+			// waiting for other goroutines while holding a lock: reported as blocking-while-locked (the waited-for side
+			// may need that lock); execution continues
+			ex.blocks = append(ex.blocks, Event{Kind: "WaitGroup.Wait while holding a lock", PC: st.pcTerm(), Pos: ex.pos(site), Case: ex.curCase, Msg: held})
+		}
 		return nil
 	}
 	intrinsics["(*sync.Once).Do"] = func(ex *Exec, st *State, fn *ssa.Function, args []Value, site ssa.Instruction) Value {
@@ -543,6 +555,21 @@ func (ex *Exec) lockOp(st *State, p Value, site ssa.Instruction, op string) {
 		r = ex.load(st, rp).(*Term)
 		readers = Not(Eq(r, BV(32, 0)))
 	}
+	if (op == "Lock" || op == "RLock") && ex.lockHook != nil && !ex.inLockHook && !isNilFunc(ex.lockHook) {
+		ex.inLockHook = true
+		ex.invokeFuncValue(st, ex.lockHook, []Value{ex.strConst(name)}, site)
+		ex.inLockHook = false
+		if st.dead() {
+			return
+		}
+		// re-read the lock state: the hook may have run other critical sections
+		w = ex.load(st, wp).(*Term)
+		held = Not(Eq(w, BV(32, 0)))
+		if isRW {
+			r = ex.load(st, rp).(*Term)
+			readers = Not(Eq(r, BV(32, 0)))
+		}
+	}
 	ex.lockEvents = append(ex.lockEvents, LockEvent{Op: op, Lock: ex.locks[key].name, Pos: ex.pos(site), PC: st.pcTerm(), Held: ex.heldLocks(st), Case: ex.curCase})
 	switch op {
 	case "Lock":
@@ -676,4 +703,9 @@ func (ex *Exec) bytesValue(st *State, b []byte) *SliceV {
 		es[i] = BV(8, uint64(x))
 	}
 	return ex.mkSliceFromElems(st, es)
+}
+
+func isNilFunc(v Value) bool {
+	f, ok := v.(*FuncC)
+	return ok && f.Fn == nil && f.Builtin == nil
 }
